@@ -103,7 +103,7 @@ Print Assumptions c06_edf_window_rational.
    all entries present at the window start (scaled form: n_i*per_i stands for n_i/w_i * D). *)
 Theorem c06_edf_window_after_late_add : forall pre s0 picks s1,
   Forall eop_ok pre -> edf_exec edf_init pre = Some s0 -> edf_run s0 picks = Some s1 ->
-  forall i j, (i < length (es s0))%nat -> (j < length (es s0))%nat ->
+  forall i j, (i < List.length (es s0))%nat -> (j < List.length (es s0))%nat ->
   Z.abs (count_pick i picks * per_at s0 i - count_pick j picks * per_at s0 j)
     <= per_at s0 i + per_at s0 j.
 Proof. exact edf_window_reachable. Qed.
